@@ -42,7 +42,12 @@ def compile_db(repo=None):
     cmd = ["make", "-n", "-B"]
     for o in old:
         cmd += ["-o", o]
-    rc, out, err = _run(cmd, cwd=src)
+    # make -n still re-makes the included .deps/*.Plo fragments: concurrent checks must not race on them
+    import fcntl
+    os.makedirs(CACHE, exist_ok=True)
+    with open(os.path.join(CACHE, "compdb.lock"), "w") as lk:
+        fcntl.flock(lk, fcntl.LOCK_EX)
+        rc, out, err = _run(cmd, cwd=src)
     db = {}
     for line in out.decode(errors="replace").splitlines():
         if "mode=compile" not in line:
